@@ -76,18 +76,39 @@ class Running:
         return tot
 
 
+class AXact(X.Xact):
+    """a transaction written inside `apply account N1` .. `apply account Nk`: its postings carry the names as written"""
+    stack = ()
+
+    def text(self, i):
+        t = super().text(i)
+        if not self.stack:
+            return t
+        return ''.join('apply account %s\n' % n for n in self.stack) + '\n' + t + '\n' + 'end apply account\n' * len(self.stack)
+
+    def sx(self):
+        if not self.stack:
+            return super().sx()
+        return ['xact-in', [n.encode() for n in self.stack]] + [p.sx() for p in self.posts]
+
+
 def virt(kind):
     return kind in ('V', 'B')
 
 
-def gen_history(rng, auto=False, deferred=False):
+def gen_history(rng, auto=False, deferred=False, stack=()):
     """-> (xacts, expected, eof) where expected[i] = 'ok' | 'assert' | 'multi' and per posting assigned values
     deferred: some postings are written <Account>; eof = the index of the transaction in front of which the file of the
     first -f option ends (what the accounts held back counts from there on), or None: one -f file
+    stack: some transactions are written inside `apply account` blocks of these names (outermost first); the oracle
+    folds over the accounts the postings then belong to (N1:..:Nk:written name)
     auto: the journal starts with the rule AUTO_TEXT; postings to AUTO_SRC make it add a pair of [balanced virtual]
     postings, and the assertions and assignments are (also) made on the two accounts those reach"""
     syms = rng.sample(list(DEC), rng.choice([1, 2, 3]))
     accts = rng.sample(ACCTS, rng.randrange(1, 5)) + ['Equity:Open']
+    if stack:
+        # accounts that a block reaches by a short name, and accounts whose name means another account inside it
+        accts = ['Assets:Bank', 'Assets:Bank:Sub'] + rng.sample(ACCTS[2:], rng.randrange(1, 3)) + ['Equity:Open']
     if auto:
         accts = rng.sample(ACCTS, rng.randrange(0, 3)) + [AUTO_BUDGET, AUTO_POOL][:rng.choice([1, 2, 2])] + ['Equity:Open']
     # the first `warm` transactions leave the two accounts to the rule alone: what they hold when the first written
@@ -105,6 +126,13 @@ def gen_history(rng, auto=False, deferred=False):
         if eof is not None and len(xs) == eof:
             run.end_of_file()
         posts = []
+        pre = ':'.join(stack) if stack and rng.random() < 0.45 else ''
+
+        def names(acct):
+            """(the account the posting belongs to, the name to write)"""
+            if not pre:
+                return acct, acct
+            return (acct, acct[len(pre) + 1:]) if acct.startswith(pre + ':') else (pre + ':' + acct, acct)
         extra = []                     # postings of this transaction so far
         verdict = 'ok'
         assigned = {}
@@ -112,6 +140,7 @@ def gen_history(rng, auto=False, deferred=False):
             acct = rng.choice(plain if k < warm else accts[:-1])
             if auto and k == warm and j == 0:
                 acct = rng.choice([a for a in accts[:-1] if a in (AUTO_BUDGET, AUTO_POOL)])
+            acct, written = names(acct)
             kr = rng.random()
             kind = 'V' if kr < 0.17 else 'B' if kr < 0.27 else 'R'      # (virtual), [balanced virtual], real
             if deferred and 0.27 <= kr < 0.55:
@@ -122,7 +151,7 @@ def gen_history(rng, auto=False, deferred=False):
             if r < 0.25 and rng.random() < 0.2:
                 # bare assignment `= 0`: every commodity of the account is meant; one amount must complete them all
                 bal = dict((s, v) for s, v in run.balance(acct, virt(kind), extra).items() if v != 0)
-                p = WPost(acct, kind, None, None, None, X.Amt(F(0), 0, None))
+                p = WPost(written, kind, None, None, None, X.Amt(F(0), 0, None))
                 if len(bal) > 1:
                     verdict = 'multi'
                 else:
@@ -135,7 +164,7 @@ def gen_history(rng, auto=False, deferred=False):
                 target = amt(rng, sym)
                 bal = run.balance(acct, virt(kind), extra).get(sym, 0)
                 val = target.value - bal
-                p = WPost(acct, kind, None, None, None, target)
+                p = WPost(written, kind, None, None, None, target)
                 assigned[len(posts)] = (sym, val)
                 extra.append((acct, virt(kind), sym, val, kind != 'V', kind == 'D', (sym, val)))
             else:
@@ -148,7 +177,7 @@ def gen_history(rng, auto=False, deferred=False):
                     # unit only on a whole quantity (the total then has the decimals of its commodity)
                     csym = rng.choice([s for s in syms if s != sym])
                     cost = ('u' if sym == 'AAA' and rng.random() < 0.5 else 't', amt(rng, csym, 1, 3000))
-                p = WPost(acct, kind, a, cost, lot)
+                p = WPost(written, kind, a, cost, lot)
                 if lot is not None and rng.random() < 0.4:
                     p.lot_fixed = True          # {=PRICE}: once the commodity has lots of both kinds, reports keep the fixated price apart
                 extra.append((acct, virt(kind), sym, a.value, kind != 'V', kind == 'D', p.balancing() if cost else (sym, a.value)))
@@ -186,8 +215,10 @@ def gen_history(rng, auto=False, deferred=False):
                 ekind, eacct = 'B', rng.choice(plain if k < warm else accts[:-1])
                 if deferred and rng.random() < 0.5:
                     ekind = 'D'         # an elided deferred posting: the postings made for its commodities are deferred too
-            posts.append(WPost(eacct, ekind, None))
-        x = X.Xact(posts, date='2020/%02d/%02d' % (rng.randrange(1, 13), rng.randrange(1, 29)))
+            eacct, ewritten = names(eacct)
+            posts.append(WPost(ewritten, ekind, None))
+        x = AXact(posts, date='2020/%02d/%02d' % (rng.randrange(1, 13), rng.randrange(1, 29)))
+        x.stack = tuple(stack) if pre else ()
         xs.append(x)
         exp.append(dict(kind=verdict, assigned=assigned))
         if verdict == 'ok':
@@ -275,7 +306,9 @@ def run(ctx, n_override=None):
                 'accounts incl. a sub-account, 1-3 commodities, real, (virtual) and [balanced virtual] postings, an elided amount on a real or a '
                 '[balanced virtual] posting (absorbing up to three commodities), lots, dates deliberately out of file '
                 'order; `= X` on arbitrary postings: true assertions, false ones off by >= 1 display unit, bare-0 assertions, '
-                'assignments; with and without --permissive; in one file, with a stretch of the transactions in an included file, or in two files given by two -f options; non-trivial = the transaction carries an assertion or assignment; '
+                'assignments, bare `= 0` assignments (the account holding zero, one or several commodities); costs (@ on whole quantities, @@) on postings with and without a clause; '
+                'every fourth journal with <deferred> postings (written, elided, carrying a clause), the end of the first -f file where the generator put it; '
+                'every fourth journal with transactions inside `apply account` blocks (one or two deep: short names reaching accounts used outside, and names that mean another account inside); with and without --permissive; in one file, with a stretch of the transactions in an included file, or in two files given by two -f options; non-trivial = the transaction carries an assertion or assignment; '
                 'distinct by rendered text')
     n = n_override or ctx.scale(150, 3000)
     X.ERR_CLASSES[:] = ERRS
@@ -283,7 +316,8 @@ def run(ctx, n_override=None):
     for j in range(n):
         auto = j % 4 == 3
         deferred = j % 4 == 1
-        xs, exp, eof = gen_history(rng, auto, deferred)
+        stack = rng.choice([('Assets',), ('Assets',), ('Assets', 'Bank')]) if j % 4 == 2 else ()
+        xs, exp, eof = gen_history(rng, auto, deferred, stack)
         permissive = rng.random() < 0.25
         cut = None
         if deferred:
@@ -309,13 +343,15 @@ def run(ctx, n_override=None):
         text = AUTO[0] + X.render_journal(xs)
         if auto:
             res.count('automated-rule')
+        if j % 4 == 2:
+            res.count('apply-account-stream')
         if j % 4 == 1:
             res.count('deferred-stream' + (':two-f-options' if cut and cut[0] == 'two' else ':included-file' if cut else ':one-file'))
         extra = ['--permissive'] if permissive else []
         # the checking options together: --permissive wins over --strict and --pedantic wherever it stands; alone, --strict
         # and --pedantic leave assertions as they are (every name is declared, so they have nothing else to say)
         PRELUDE[0] = ''
-        if rng.random() < 0.3:
+        if j % 4 != 2 and rng.random() < 0.3:
             PRELUDE[0] = declarations()
             other = rng.choice([['--strict'], ['--pedantic'], ['--strict', '--pedantic']])
             extra = (other + extra) if rng.random() < 0.5 else (extra + other)
@@ -340,6 +376,8 @@ def run(ctx, n_override=None):
             mod = (mk + ' ' + mrest).strip()
             res.count('impl:' + impl.split(' ')[0] + (':' + errs[i] if i in rejected else ''))
             has_clause = any(p.assigned is not None for p in x.posts)
+            if getattr(x, 'stack', ()):
+                res.count('xact:inside-apply-account:%d' % len(x.stack) + (':with-clause' if has_clause else ''))
             for p in x.posts:
                 if p.kind == 'D':
                     res.count('posting:deferred' + (':with-clause' if p.assigned is not None else '') + (':elided' if p.amt is None and p.assigned is None else ''))
